@@ -56,6 +56,37 @@ pub enum BB {
     Sp,
 }
 
+/// look-ahead definitions: end-anchored and word-boundary patterns (late-accept states, end-of-input
+/// edges), next to longer tokens continuing with the asserting byte
+#[derive(Logos, Debug, Clone, PartialEq)]
+#[logos(extras = u32)]
+pub enum SC {
+    #[regex("[a-z]+", inc, priority = 1)]
+    Word,
+    #[regex("end$", priority = 9)]
+    End,
+    #[regex(r"let(?-u:\b)", inc, priority = 8)]
+    Kw,
+    #[token("let ", priority = 20)]
+    KwBlank,
+    #[token(" ")]
+    Sp,
+}
+
+#[derive(Logos, Debug, Clone, PartialEq)]
+#[logos(extras = u32)]
+#[logos(skip("#[a-z]*(?m:$)", inc))]
+pub enum SD {
+    #[regex("[a-z]+(?m:$)", priority = 9)]
+    Eol,
+    #[regex("[a-z]+", inc, priority = 1)]
+    Word,
+    #[token("\n")]
+    Nl,
+    #[token(" ")]
+    Sp,
+}
+
 macro_rules! explorer {
     ($modname:ident, $A:ty, $B:ty, $Src:ty, $to_src:expr, $is_boundary:expr, $bytes:expr) => {
         pub mod $modname {
@@ -314,14 +345,20 @@ fn bin_boundary(s: &[u8], i: usize) -> bool {
 
 explorer!(strs, SA, SB, str, to_str, str_boundary, str_bytes);
 explorer!(bins, BA, BB, [u8], ident, bin_boundary, ident);
+explorer!(looks, SC, SD, str, to_str, str_boundary, str_bytes);
 
 pub fn run(tier: &str, rep: &mut Report) {
     std::panic::set_hook(Box::new(|_| {}));
     let depth = if tier == "thorough" { 7 } else { 5 };
-    rep.bounds.insert("histories".into(), format!("all sequences of {{next, bump(1) when legal, clone, morph, spanned}} up to depth {depth}, de-duplicated on (definition, token_start, token_end, extras), for 2 definition pairs (str, bytes) x {{ordinary, partial}} x both start definitions x 7 sources"));
+    rep.bounds.insert("histories".into(), format!("all sequences of {{next, bump(1) when legal, clone, morph, spanned}} up to depth {depth}, de-duplicated on (definition, token_start, token_end, extras), for 3 definition pairs (str, bytes, str with look-ahead / end-anchored patterns) x {{ordinary, partial}} x both start definitions x 7 sources each"));
     let str_sources: [&str; 7] = ["", "ab 12", "éa€b", "abc  ", "ab..", "a!b", "ab. x9"];
     for s in str_sources {
         strs::explore(s.as_bytes(), depth, rep);
+        rep.count("programs", 1);
+    }
+    let look_sources: [&str; 7] = ["", "let end", "let x\nend", "ab\nend", "letx #a", "#ab\nlet", "end end\n"];
+    for s in look_sources {
+        looks::explore(s.as_bytes(), depth, rep);
         rep.count("programs", 1);
     }
     let bin_sources: [&[u8]; 7] = [b"", b"ab 12", b"\xc3\xa9a\xff", b"abc  ", b"a\x80\x80b", b"a!b", b"zz 7\xfe"];
